@@ -113,6 +113,10 @@ type PathResult struct {
 	Known        map[string]*Violation
 	SampleInputs map[string]interface{}
 	SyncTrace    []string
+	Races        []RaceReport
+	RaceStats    RaceStats
+	RaceQueries  int64
+	RaceSolverNS int64
 	Funcs        []*ssa.Function
 	Inputs       int
 	Trace        []string
@@ -155,6 +159,10 @@ type Summary struct {
 	CrossN       int
 	CrossStats   smt.Stats
 	Known        map[string]*Violation
+	Races        map[string]RaceReport
+	RaceStats    RaceStats
+	RaceQueries  int64
+	RaceSolverNS int64
 	SampleInputs []map[string]interface{}
 	Stats        smt.Stats
 	Funcs        map[*ssa.Function]bool
@@ -180,7 +188,7 @@ func (p *Program) Explore(fn *ssa.Function, opts ExploreOpts) *Summary {
 		opts.TimeoutMS = 60000
 	}
 	sum := &Summary{Harness: fn.Name(), Reached: map[string]int{}, Asserts: map[string]int{}, AssertsConc: map[string]int{},
-		Funcs: map[*ssa.Function]bool{}, DistinctSig: map[string]bool{}, Known: map[string]*Violation{}}
+		Funcs: map[*ssa.Function]bool{}, DistinctSig: map[string]bool{}, Known: map[string]*Violation{}, Races: map[string]RaceReport{}}
 	var mu sync.Mutex
 	cond := sync.NewCond(&mu)
 	work := [][]Dec{{}}
@@ -259,6 +267,19 @@ func (p *Program) Explore(fn *ssa.Function, opts ExploreOpts) *Summary {
 			sum.Steps += res.Steps
 			sum.CacheHits += res.CacheHits
 			sum.CrossN += res.CrossN
+			for _, rr := range res.Races {
+				sum.Races[rr.SiteA+" | "+rr.SiteB] = rr
+			}
+			sum.RaceStats.Events += res.RaceStats.Events
+			sum.RaceStats.SyncEvents += res.RaceStats.SyncEvents
+			sum.RaceStats.Accesses += res.RaceStats.Accesses
+			sum.RaceStats.Candidates += res.RaceStats.Candidates
+			sum.RaceStats.Queries += res.RaceStats.Queries
+			sum.RaceStats.Sat += res.RaceStats.Sat
+			sum.RaceStats.Unsat += res.RaceStats.Unsat
+			sum.RaceStats.Unknown += res.RaceStats.Unknown
+			sum.RaceQueries += res.RaceQueries
+			sum.RaceSolverNS += res.RaceSolverNS
 			for k, v := range res.Known {
 				if sum.Known[k] == nil {
 					sum.Known[k] = v
@@ -381,6 +402,12 @@ func (p *Program) RunPath(fn *ssa.Function, prefix []Dec, solver *smt.Solver, op
 		}
 	}
 	res.Known = m.knownW
+	res.Races = m.RaceReports
+	res.RaceStats = m.RaceStats
+	if m.RaceSolverStats != nil {
+		res.RaceQueries = m.RaceSolverStats.Queries
+		res.RaceSolverNS = m.RaceSolverStats.SolverNS
+	}
 	res.SyncTrace = m.SyncTrace
 	res.CrossN = m.CrossN
 	m.cleanup()
